@@ -65,8 +65,20 @@ theorem decode_val_present (p : Param) (raw : Option (List Wire)) (h : decode p 
     | sc t => simp [hty] at h
     | array t => simp only [hty] at h; split at h <;> simp at h
 
-/-- for a typed non-path parameter "not found" means the key is absent -/
-theorem decode_nil_false_absent (p : Param) (raw : Option (List Wire)) (hty : p.ty ≠ .untyped) (hpath : p.loc ≠ .path)
+/-- "found without a value" implies the key is present -/
+theorem decode_nil_true_present (p : Param) (raw : Option (List Wire)) (h : decode p raw = .nil true) :
+    raw.isSome = true := by
+  cases raw with
+  | some ws => rfl
+  | none =>
+    unfold decode at h
+    cases hty : p.ty with
+    | untyped => simp [hty] at h
+    | sc t => simp [hty] at h
+    | array t => simp only [hty] at h; split at h <;> simp at h
+
+/-- for a non-path parameter "not found" means the key is absent -/
+theorem decode_nil_false_absent (p : Param) (raw : Option (List Wire)) (hpath : p.loc ≠ .path)
     (h : decode p raw = .nil false) : raw = none := by
   cases raw with
   | none => rfl
@@ -74,7 +86,7 @@ theorem decode_nil_false_absent (p : Param) (raw : Option (List Wire)) (hty : p.
     exfalso
     unfold decode at h
     cases hp : p.ty with
-    | untyped => exact hty hp
+    | untyped => simp [hp] at h
     | sc t =>
       simp only [hp] at h
       cases ws with
@@ -90,136 +102,10 @@ theorem decode_nil_false_absent (p : Param) (raw : Option (List Wire)) (hty : p.
           simp only at h
           split at h <;> (unfold decodeArray at h; split at h <;> (try simp at h) <;> split at h <;> simp at h)
 
-theorem decodeArray_no_nil (t : STy) (pieces : List Wire) (hne : pieces ≠ []) (h : parseItems t pieces ≠ .nil) :
-    decodeArray t pieces = .err ∨ decodeArray t pieces = .val := by
-  unfold decodeArray
-  cases pieces with
-  | nil => exact absurd rfl hne
-  | cons w r =>
-    simp only
-    cases hp : parseItems t (w :: r) with
-    | err => simp
-    | nil => exact absurd hp h
-    | val x => simp
-
-theorem parseItems_single (t : STy) (w : Wire) (h : parseScalar t w ≠ .nil) : parseItems t [w] ≠ .nil := by
-  simp only [parseItems]
-  cases hp : parseScalar t w with
-  | err => simp
-  | nil => exact absurd hp h
-  | val x => simp
-
 theorem splitComma_mkCsv (as : List Scalar) (h : mkCsv as ≠ .empty) : splitComma (mkCsv as) = as.map .lit := by
   cases as with
   | nil => simp [mkCsv] at h
   | cons a r => cases r <;> simp [mkCsv, splitComma]
-
-theorem mkCsv_parse_ne_nil (t : STy) (as : List Scalar) (h : mkCsv as ≠ .empty) : parseScalar t (mkCsv as) ≠ .nil := by
-  cases as with
-  | nil => simp [mkCsv] at h
-  | cons a r =>
-    cases r with
-    | nil => simpa [mkCsv] using parseScalar_lit_ne_nil t a
-    | cons b r' => simpa [mkCsv] using parseScalar_csv_ne_nil t (a :: b :: r')
-
-/-- What a later validation decodes from a default written into an empty slot is never "no value": the default is
-    not written again.  (Excluded: nothing written, or the written text is empty.) -/
-theorem decode_written (p : Param) (d : PVal) (hty : p.ty ≠ .untyped)
-    (h1 : encodeDefault p d ≠ []) (h2 : encodeDefault p d ≠ [.empty]) :
-    decode p (some (encodeDefault p d)) = .err ∨ decode p (some (encodeDefault p d)) = .val := by
-  unfold decode
-  cases hp : p.ty with
-  | untyped => exact absurd hp hty
-  | sc t =>
-    simp only
-    cases he : encodeDefault p d with
-    | nil => exact absurd he h1
-    | cons w r =>
-      simp only
-      have hw : parseScalar t w ≠ .nil := by
-        unfold encodeDefault at he
-        cases hl : p.loc <;> cases d <;> simp only [hl] at he
-        case path.sc => cases he
-        case path.list => cases he
-        case query.sc a => simp at he; obtain ⟨rfl, _⟩ := he; exact parseScalar_lit_ne_nil t a
-        case header.sc a => simp at he; obtain ⟨rfl, _⟩ := he; exact parseScalar_lit_ne_nil t a
-        case cookie.sc a => simp at he; obtain ⟨rfl, _⟩ := he; exact parseScalar_lit_ne_nil t a
-        case header.list as => simp at he; obtain ⟨rfl, _⟩ := he; exact parseScalar_sprint_ne_nil t as
-        case cookie.list as => simp at he; obtain ⟨rfl, _⟩ := he; exact parseScalar_sprint_ne_nil t as
-        case query.list as =>
-          cases hx : p.explode with
-          | true =>
-            simp only [hx, ↓reduceIte] at he
-            cases as with
-            | nil => simp at he
-            | cons a as' => simp at he; obtain ⟨rfl, _⟩ := he; exact parseScalar_lit_ne_nil t a
-          | false =>
-            simp only [hx, Bool.false_eq_true, ↓reduceIte] at he
-            simp at he; obtain ⟨rfl, rfl⟩ := he
-            apply mkCsv_parse_ne_nil
-            intro hm; apply h2; unfold encodeDefault; simp [hl, hx, hm]
-      cases hq : parseScalar t w with
-      | err => simp
-      | nil => exact absurd hq hw
-      | val x => simp
-  | array t =>
-    simp only
-    split
-    · simp
-    · cases he : encodeDefault p d with
-      | nil => exact absurd he h1
-      | cons w r =>
-        simp only
-        unfold encodeDefault at he
-        cases hl : p.loc <;> cases d <;> simp only [hl] at he
-        case path.sc => cases he
-        case path.list => cases he
-        case query.sc a =>
-          simp at he; obtain ⟨rfl, rfl⟩ := he
-          split
-          · exact decodeArray_no_nil t _ (by simp) (parseItems_single t _ (parseScalar_lit_ne_nil t a))
-          · simp only [splitComma]
-            exact decodeArray_no_nil t _ (by simp) (parseItems_single t _ (parseScalar_lit_ne_nil t a))
-        case query.list as =>
-          cases hx : p.explode with
-          | true =>
-            simp only [hx, ↓reduceIte] at he
-            simp only [hl, hx, Bool.and_self, ↓reduceIte, beq_self_eq_true, decide_true]
-            rw [← he]
-            apply decodeArray_no_nil t _ (by rw [he]; simp)
-            exact parseItems_lits_ne_nil t as
-          | false =>
-            simp only [hx, Bool.false_eq_true, ↓reduceIte] at he
-            simp at he; obtain ⟨rfl, rfl⟩ := he
-            simp only [hl, hx, Bool.and_false, Bool.false_eq_true, ↓reduceIte]
-            have hm : mkCsv as ≠ .empty := by
-              intro hm; apply h2; unfold encodeDefault; simp [hl, hx, hm]
-            rw [splitComma_mkCsv as hm]
-            have hne : as.map Wire.lit ≠ [] := by
-              cases as with
-              | nil => simp [mkCsv] at hm
-              | cons a r => simp
-            exact decodeArray_no_nil t _ hne (parseItems_lits_ne_nil t as)
-        case header.sc a =>
-          simp at he; obtain ⟨rfl, rfl⟩ := he
-          simp only [hl, splitComma]
-          simp
-          exact decodeArray_no_nil t _ (by simp) (parseItems_single t _ (parseScalar_lit_ne_nil t a))
-        case header.list as =>
-          simp at he; obtain ⟨rfl, rfl⟩ := he
-          simp only [hl, splitComma]
-          simp
-          exact decodeArray_no_nil t _ (by simp) (parseItems_single t _ (parseScalar_sprint_ne_nil t as))
-        case cookie.sc a =>
-          simp at he; obtain ⟨rfl, rfl⟩ := he
-          simp only [hl, splitComma]
-          simp
-          exact decodeArray_no_nil t _ (by simp) (parseItems_single t _ (parseScalar_lit_ne_nil t a))
-        case cookie.list as =>
-          simp at he; obtain ⟨rfl, rfl⟩ := he
-          simp only [hl, splitComma]
-          simp
-          exact decodeArray_no_nil t _ (by simp) (parseItems_single t _ (parseScalar_sprint_ne_nil t as))
 
 theorem decodeArray_val (t : STy) (pieces : List Wire) (hne : pieces ≠ []) (x : Scalar)
     (h : parseItems t pieces = .val x) : decodeArray t pieces = .val := by
@@ -228,14 +114,101 @@ theorem decodeArray_val (t : STy) (pieces : List Wire) (hne : pieces ≠ []) (x 
   | nil => exact absurd rfl hne
   | cons w r => simp [h]
 
-/-- A default that is valid for the parameter's type, written where its own serialisation is used, decodes to a
-    value on the next validation. -/
+/-- the code's serialisation of a default is the spec's -/
+theorem encodeDefault_eq_spec (p : Param) (d : PVal) : encodeDefault p d = specEncode p d := by
+  unfold encodeDefault specEncode
+  cases p.loc <;> cases d <;> rfl
+
+/-- the default the "Set default value" block applies, if it runs -/
+def applied (skip : Bool) (p : Param) (raw : Option (List Wire)) : Option PVal :=
+  match decode p raw with
+  | .nil false => if skip then none else p.dflt
+  | _ => none
+
+theorem stepWith_fst (skip : Bool) (p : Param) (raw : Option (List Wire)) (st : Store) :
+    (stepWith skip p raw st).1 = (match applied skip p raw with | some d => writeDefault p d st | none => st) := by
+  unfold stepWith applied
+  cases decode p raw with
+  | err => rfl
+  | val => rfl
+  | nil found =>
+    cases found with
+    | true => simp
+    | false => cases skip <;> simp <;> cases p.dflt <;> rfl
+
+/-- the verdict does not depend on the store, only on the raw values looked up -/
+theorem stepWith_snd (skip : Bool) (p : Param) (raw : Option (List Wire)) (st st' : Store) :
+    (stepWith skip p raw st).2 = (stepWith skip p raw st').2 := by
+  unfold stepWith
+  cases decode p raw with
+  | err => rfl
+  | val => rfl
+  | nil found => simp only; cases (if (skip || found) = true then none else p.dflt) <;> rfl
+
+theorem applied_some_absent (skip : Bool) (p : Param) (raw : Option (List Wire)) (d : PVal)
+    (h : applied skip p raw = some d) : decode p raw = .nil false ∧ skip = false ∧ p.dflt = some d := by
+  unfold applied at h
+  cases hd : decode p raw with
+  | err => simp [hd] at h
+  | val => simp [hd] at h
+  | nil found =>
+    cases found with
+    | true => simp [hd] at h
+    | false => cases skip <;> simp [hd] at h; exact ⟨rfl, rfl, h⟩
+
+/-- once a non-empty default has been written the key is present: the block does not run again -/
+theorem applied_after_write (skip : Bool) (p : Param) (ws : List Wire) (hpath : p.loc ≠ .path) :
+    applied skip p (some ws) = none := by
+  cases h : applied skip p (some ws) with
+  | none => rfl
+  | some d =>
+    have := decode_nil_false_absent p (some ws) hpath (applied_some_absent skip p _ d h).1
+    cases this
+
+theorem encodeDefault_path (p : Param) (d : PVal) (h : p.loc = .path) : encodeDefault p d = [] := by
+  unfold encodeDefault; simp [h]
+
+theorem writeDefault_get (p : Param) (d : PVal) (st : Store) (hne : encodeDefault p d ≠ []) (hg : st.get p.key = none) :
+    (writeDefault p d st).get p.key = some (encodeDefault p d) := by
+  unfold writeDefault
+  cases he : encodeDefault p d with
+  | nil => exact absurd he hne
+  | cons w r => simp [get_add_same, hg]
+
+/-- an empty raw value is "found without a value" for every typed non-path parameter that decodes at all -/
+theorem decode_empty (p : Param) (hpath : p.loc ≠ .path) (hty : p.ty ≠ .untyped) (h : decode p none = .nil false) :
+    decode p (some [.empty]) = .nil true := by
+  unfold decode at h ⊢
+  cases hp : p.ty with
+  | untyped => exact absurd hp hty
+  | sc t => simp [parseScalar, hpath]
+  | array t =>
+    simp only [hp] at h ⊢
+    split at h
+    · simp at h
+    · rename_i hc
+      simp only [hc, ↓reduceIte]
+      cases hq : (decide (p.loc = Loc.query) && p.explode) <;>
+        simp [decodeArray, splitComma, parseItems, parseScalar]
+
+theorem decode_csv (p : Param) (t : STy) (as : List Scalar) (x : Scalar) (hp : p.ty = .array t)
+    (hc : (decide (p.loc = Loc.cookie) && p.explode) = false) (hq : (decide (p.loc = Loc.query) && p.explode) = false)
+    (hm : mkCsv as ≠ .empty) (hx : parseItems t (as.map .lit) = .val x) : decode p (some [mkCsv as]) = .val := by
+  unfold decode
+  simp only [hp, hc, hq, Bool.false_eq_true, ↓reduceIte]
+  rw [splitComma_mkCsv as hm]
+  have hne : as.map Wire.lit ≠ [] := by
+    cases as with
+    | nil => simp [mkCsv] at hm
+    | cons a r => simp
+  exact decodeArray_val t _ hne x hx
+
+/-- A default that is valid for the parameter's type decodes to a value on the next validation, unless nothing was
+    written or the written text is empty. -/
 theorem decode_written_valid (p : Param) (d : PVal) (hv : dfltValid p.ty d = true) (hty : p.ty ≠ .untyped)
-    (hsprint : ¬ ((p.loc = .header ∨ p.loc = .cookie) ∧ ∃ as, d = .list as))
-    (hcookie : ¬ (p.loc = .cookie ∧ p.explode = true ∧ ∃ t, p.ty = .array t))
+    (hdec : decode p none = .nil false)
     (h1 : encodeDefault p d ≠ []) (h2 : encodeDefault p d ≠ [.empty]) :
     decode p (some (encodeDefault p d)) = .val := by
-  unfold decode
   cases hp : p.ty with
   | untyped => exact absurd hp hty
   | sc t =>
@@ -248,7 +221,7 @@ theorem decode_written_valid (p : Param) (d : PVal) (hv : dfltValid p.ty d = tru
       have he : encodeDefault p (.sc a) = [.lit a] ∨ encodeDefault p (.sc a) = [] := by
         unfold encodeDefault; cases p.loc <;> simp
       rcases he with he | he
-      · simp [he, hx]
+      · unfold decode; simp [hp, he, hx]
       · exact absurd he h1
   | array t =>
     rw [hp] at hv
@@ -257,36 +230,36 @@ theorem decode_written_valid (p : Param) (d : PVal) (hv : dfltValid p.ty d = tru
     | list as =>
       simp only [dfltValid] at hv
       obtain ⟨x, hx⟩ := parseItems_lits_typed t as hv
-      have hc : (p.loc = .cookie && p.explode) = false := by
-        cases hb : (p.loc = .cookie && p.explode) with
+      have hc : (decide (p.loc = Loc.cookie) && p.explode) = false := by
+        cases hb : (decide (p.loc = Loc.cookie) && p.explode) with
         | false => rfl
-        | true => simp at hb; exact absurd ⟨hb.1, hb.2, t, hp⟩ hcookie
-      simp only [hc, Bool.false_eq_true, ↓reduceIte]
+        | true => unfold decode at hdec; simp [hp, hb] at hdec
       cases hl : p.loc with
-      | header => exact absurd ⟨Or.inl hl, as, rfl⟩ hsprint
-      | cookie => exact absurd ⟨Or.inr hl, as, rfl⟩ hsprint
       | path => exfalso; apply h1; unfold encodeDefault; simp [hl]
+      | header =>
+        have he : encodeDefault p (.list as) = [mkCsv as] := by unfold encodeDefault; simp [hl]
+        rw [he] at h2 ⊢
+        exact decode_csv p t as x hp hc (by simp [hl]) (by intro hm; apply h2; rw [hm]) hx
+      | cookie =>
+        have he : encodeDefault p (.list as) = [mkCsv as] := by unfold encodeDefault; simp [hl]
+        rw [he] at h2 ⊢
+        exact decode_csv p t as x hp hc (by simp [hl]) (by intro hm; apply h2; rw [hm]) hx
       | query =>
         cases hx2 : p.explode with
         | true =>
           have he : encodeDefault p (.list as) = as.map .lit := by unfold encodeDefault; simp [hl, hx2]
           rw [he] at h1 ⊢
+          unfold decode
+          simp only [hp, hc, Bool.false_eq_true, ↓reduceIte]
           cases has : as.map Wire.lit with
           | nil => exact absurd has h1
           | cons w r =>
-            simp only [decide_true, Bool.and_self, ↓reduceIte]
+            simp only [hl, hx2, decide_true, Bool.and_self, ↓reduceIte]
             rw [← has]; exact decodeArray_val t _ (by rw [has]; simp) x hx
         | false =>
           have he : encodeDefault p (.list as) = [mkCsv as] := by unfold encodeDefault; simp [hl, hx2]
           rw [he] at h2 ⊢
-          have hm : mkCsv as ≠ .empty := by intro hm; apply h2; rw [hm]
-          simp only [Bool.and_false, Bool.false_eq_true, ↓reduceIte]
-          rw [splitComma_mkCsv as hm]
-          have hne : as.map Wire.lit ≠ [] := by
-            cases as with
-            | nil => simp [mkCsv] at hm
-            | cons a r => simp
-          exact decodeArray_val t _ hne x hx
+          exact decode_csv p t as x hp hc (by simp [hx2]) (by intro hm; apply h2; rw [hm]) hx
 
 /-! ### several parameters -/
 
@@ -300,57 +273,38 @@ theorem add_ne_self (st : Store) (k : Key) (ws : List Wire) (hne : ws ≠ []) : 
     simp [hg] at this
     exact hne this
 
+theorem writeDefault_other (p : Param) (d : PVal) (st : Store) (k : Key) (hk : k ≠ p.key) :
+    (writeDefault p d st).get k = st.get k := by
+  unfold writeDefault
+  cases he : encodeDefault p d with
+  | nil => rfl
+  | cons w r => exact get_add_other st p.key k (w :: r) hk
+
+theorem writeDefault_fix (p : Param) (d : PVal) (st st' : Store) (h : writeDefault p d st = st) :
+    writeDefault p d st' = st' := by
+  unfold writeDefault at h ⊢
+  cases he : encodeDefault p d with
+  | nil => rfl
+  | cons w r => rw [he] at h; exact absurd h (add_ne_self st p.key (w :: r) (by simp))
+
 theorem paramStep_congr (skip : Bool) (p : Param) (st st' : Store) (h : st.get p.key = st'.get p.key) :
     (paramStep skip p st').2 = (paramStep skip p st).2 ∧
     ((paramStep skip p st).1 = st → (paramStep skip p st').1 = st') := by
-  unfold paramStep stepWith
+  unfold paramStep
   rw [← h]
-  cases decode p (st.get p.key) with
-  | err => simp
-  | val => simp
-  | nil found =>
-    simp only
-    cases (if skip = true then none else p.dflt) with
-    | none => simp
-    | some d =>
-      simp only [true_and]
-      unfold writeDefault
-      cases he : encodeDefault p d with
-      | nil => simp
-      | cons w r => intro hh; exact absurd hh (add_ne_self st p.key (w :: r) (by simp))
-
-theorem regular_congr (skip : Bool) (p : Param) (st st' : Store) (h : st.get p.key = st'.get p.key) :
-    Regular skip p st' = Regular skip p st := by
-  unfold Regular EmptyPresent SprintArrayDefault
-  rw [h]
+  refine ⟨stepWith_snd skip p _ st' st, ?_⟩
+  rw [stepWith_fst, stepWith_fst]
+  cases applied skip p (st.get p.key) with
+  | none => intro _; rfl
+  | some d => exact writeDefault_fix p d st st'
 
 theorem paramStep_other (skip : Bool) (p : Param) (st : Store) (k : Key) (hk : k ≠ p.key) :
     (paramStep skip p st).1.get k = st.get k := by
-  unfold paramStep stepWith
-  cases decode p (st.get p.key) with
-  | err => rfl
-  | val => rfl
-  | nil found =>
-    simp only
-    cases hd : (if skip = true then none else p.dflt) with
-    | none => rfl
-    | some d =>
-      simp only [writeDefault]
-      cases he : encodeDefault p d with
-      | nil => rfl
-      | cons w r => exact get_add_other st p.key k (w :: r) hk
-
-theorem paramsPhase_other (skip multi : Bool) (k : Key) : ∀ (ps : List Param) (st : Store),
-    (∀ p ∈ ps, k ≠ p.key) → (paramsPhase skip multi ps st).1.get k = st.get k
-  | [], _, _ => rfl
-  | p :: ps, st, h => by
-    unfold paramsPhase
-    simp only
-    split
-    · exact paramStep_other skip p st k (h p (by simp))
-    · simp only
-      rw [paramsPhase_other skip multi k ps _ (fun q hq => h q (by simp [hq]))]
-      exact paramStep_other skip p st k (h p (by simp))
+  unfold paramStep
+  rw [stepWith_fst]
+  cases applied skip p (st.get p.key) with
+  | none => rfl
+  | some d => exact writeDefault_other p d st k hk
 
 theorem paramsPhase_cons (skip multi : Bool) (p : Param) (ps : List Param) (st : Store) :
     paramsPhase skip multi (p :: ps) st =
@@ -358,6 +312,17 @@ theorem paramsPhase_cons (skip multi : Bool) (p : Param) (ps : List Param) (st :
        else ((paramsPhase skip multi ps (paramStep skip p st).1).1,
              (paramStep skip p st).2 && (paramsPhase skip multi ps (paramStep skip p st).1).2)) := by
   rw [paramsPhase]
+
+theorem paramsPhase_other (skip multi : Bool) (k : Key) : ∀ (ps : List Param) (st : Store),
+    (∀ p ∈ ps, k ≠ p.key) → (paramsPhase skip multi ps st).1.get k = st.get k
+  | [], _, _ => rfl
+  | p :: ps, st, h => by
+    rw [paramsPhase_cons]
+    split
+    · exact paramStep_other skip p st k (h p (by simp))
+    · simp only
+      rw [paramsPhase_other skip multi k ps _ (fun q hq => h q (by simp [hq]))]
+      exact paramStep_other skip p st k (h p (by simp))
 
 theorem paramsPhase_ok_cons (skip multi : Bool) (p : Param) (ps : List Param) (st : Store)
     (h : (paramsPhase skip multi (p :: ps) st).2 = true) :
@@ -371,29 +336,61 @@ theorem paramsPhase_ok_cons (skip multi : Bool) (p : Param) (ps : List Param) (s
     simp only [hc, Bool.false_eq_true, ↓reduceIte]
     exact ⟨h.1, h.2, trivial⟩
 
-theorem paramsPhaseCached_cons (skip multi : Bool) (view : Store) (p : Param) (ps : List Param) (st : Store) :
-    paramsPhaseCached skip multi view (p :: ps) st =
-      (if !(paramStepCached skip view p st).2 && !multi then ((paramStepCached skip view p st).1, false)
-       else ((paramsPhaseCached skip multi view ps (paramStepCached skip view p st).1).1,
-             (paramStepCached skip view p st).2 && (paramsPhaseCached skip multi view ps (paramStepCached skip view p st).1).2)) := by
-  rw [paramsPhaseCached]
+theorem defaultReadsAsEmpty_congr (skip : Bool) (p : Param) (st st' : Store) (h : st.get p.key = st'.get p.key) :
+    DefaultReadsAsEmpty skip p st' = DefaultReadsAsEmpty skip p st := by
+  unfold DefaultReadsAsEmpty
+  rw [h]
 
-theorem paramStepCached_eq (skip : Bool) (view : Store) (p : Param) (st : Store)
-    (h : st.get p.key = view.get p.key) : paramStepCached skip view p st = paramStep skip p st := by
+/-! ### the query cache -/
+
+theorem paramStepCached_sync (skip : Bool) (view : Store) (p : Param) (st : Store) (h : InSync view st) :
+    (paramStepCached skip view p st).2.1 = (paramStep skip p st).1 ∧
+    (paramStepCached skip view p st).2.2 = (paramStep skip p st).2 ∧
+    InSync (paramStepCached skip view p st).1 (paramStep skip p st).1 := by
+  have hraw : (if p.loc = .query then view else st).get p.key = st.get p.key := by
+    split
+    · rename_i hq
+      have : p.key = (Loc.query, p.name) := by simp [Param.key, hq]
+      rw [this]; exact h p.name
+    · rfl
   unfold paramStepCached paramStep
+  rw [hraw]
+  refine ⟨rfl, rfl, ?_⟩
   split
-  · rw [h]
-  · rfl
+  · intro n; rfl
+  · rename_i hc
+    intro n
+    rw [h n, stepWith_fst]
+    cases ha : applied skip p (st.get p.key) with
+    | none => rfl
+    | some d =>
+      simp only
+      by_cases hq : p.loc = .query
+      · -- the default block ran for a query parameter: then the cache was replaced
+        exfalso
+        obtain ⟨h1, h2, h3⟩ := applied_some_absent skip p _ d ha
+        apply hc
+        simp [hq, defaultBranch, h1, h2, h3]
+      · symm
+        apply writeDefault_other
+        intro e
+        apply hq
+        have := congrArg Prod.fst e
+        simpa [Param.key] using this.symm
 
-/-- as long as every remaining parameter finds its own key in the cache as it is in the URL, the cache is invisible -/
-theorem paramsPhaseCached_eq (skip multi : Bool) (view : Store) : ∀ (ps : List Param) (st : Store),
-    keysDistinct ps = true → (∀ p ∈ ps, st.get p.key = view.get p.key) →
-    paramsPhaseCached skip multi view ps st = paramsPhase skip multi ps st
-  | [], st, _, _ => rfl
-  | p :: ps, st, hk, hv => by
-    simp only [keysDistinct, Bool.and_eq_true, List.all_eq_true, bne_iff_ne, ne_eq] at hk
-    rw [paramsPhaseCached_cons, paramsPhase_cons, paramStepCached_eq skip view p st (hv p (by simp))]
-    rw [paramsPhaseCached_eq skip multi view ps _ hk.2
-      (fun q hq => by rw [paramStep_other skip p st q.key (hk.1 q hq)]; exact hv q (by simp [hq]))]
+theorem paramsPhaseCached_sync (skip multi : Bool) : ∀ (ps : List Param) (view st : Store), InSync view st →
+    (paramsPhaseCached skip multi view ps st).2.1 = (paramsPhase skip multi ps st).1 ∧
+    (paramsPhaseCached skip multi view ps st).2.2 = (paramsPhase skip multi ps st).2 ∧
+    InSync (paramsPhaseCached skip multi view ps st).1 (paramsPhase skip multi ps st).1
+  | [], view, st, h => ⟨rfl, rfl, h⟩
+  | p :: ps, view, st, h => by
+    obtain ⟨e1, e2, e3⟩ := paramStepCached_sync skip view p st h
+    rw [paramsPhaseCached, paramsPhase_cons, e2]
+    split
+    · exact ⟨e1, rfl, e3⟩
+    · simp only
+      rw [e1]
+      obtain ⟨i1, i2, i3⟩ := paramsPhaseCached_sync skip multi ps _ _ e3
+      exact ⟨i1, by rw [i2], i3⟩
 
 end KinModel.C13.Params
